@@ -475,10 +475,20 @@ func stepsFromJ(v any) []mwStep {
 }
 
 func execMwCase(stack []mwSpec, steps []mwStep) {
-	s := startSession(composeStack(stack))
-	outs := runMwSteps(s, steps)
-	s.stop()
-	emit(M{"op": "mw", "stack": stackJ(stack), "steps": outs})
+	var outs []any
+	// the constructors validate their parameters by panicking: every generated parameter is a legal one
+	p := recoverStr(func() {
+		s := startSession(composeStack(stack))
+		outs = runMwSteps(s, steps)
+		s.stop()
+	})
+	line := M{"op": "mw", "stack": stackJ(stack), "steps": outs}
+	if p != "" {
+		line["buildPanic"] = true
+		line["panicText"] = p
+		line["steps"] = []any{}
+	}
+	emit(line)
 }
 
 type nip11In struct {
